@@ -60,7 +60,10 @@ def evalView (s : DState) (view : String) : String :=
         | some (c, w) => if hasTie c w.grid e || joinTie c true e || hasTieEng c w.grid e then "1" else "0"
         | none => "bad-op"
       | "siteok" => if siteOk e then "1" else "0"
-      | "hints" => String.intercalate ";" ((engHints Hint.empty e).map showHint)
+      | "hints" =>
+        match optInt s.opts "step" with
+        | some step => String.intercalate ";" ((engHints (Hint.start step) e).map showHint)
+        | none => "bad-op"
       | v =>
         if v.startsWith "distplan:" then
           match (v.drop 9).toString.toNat? with
